@@ -42,6 +42,8 @@ impl WaitSlot {
         if let Some(thread) = self.thread.get() {
             thread.unpark();
         }
+        #[cfg(feature = "verif")]
+        crate::verif::point(crate::verif::Point::NotifyReturn, self as *const Self as usize, 0);
     }
 
     /// Park only while `blocked` remains true.
